@@ -216,8 +216,10 @@ from katdal.chunkstore_dict import DictChunkStore  # noqa: E402
 class CountingStore(DictChunkStore):
     """Top-level (importable) so that pickling it by reference keeps CALLS shared."""
 
+    tag = 0
+
     def get_chunk(self, array_name, slices, dtype):
-        CALLS.append(tuple((s.start, s.stop) for s in slices))
+        CALLS.append((self.tag,) + tuple((s.start, s.stop) for s in slices))
         return super().get_chunk(array_name, slices, dtype)
 
 
@@ -232,20 +234,31 @@ def run_readset_impl(case):
     chunks = tuple(tuple(c) for c in case['chunklists'])
     src = np.arange(int(np.prod(shape)), dtype=np.int64).reshape(shape)
     store = _make_counting_store(x=np.zeros(shape, dtype=np.int64))
+    store2 = _make_counting_store(x=np.zeros(shape, dtype=np.int64))
+    store2.tag = 1
     with dask.config.set(scheduler='synchronous'):
-        push = store.put_dask_array('x', da.from_array(src, chunks=chunks))
-        push.compute()
+        store.put_dask_array('x', da.from_array(src, chunks=chunks)).compute()
+        store2.put_dask_array('x', da.from_array(src + 100000, chunks=chunks)).compute()
         del calls[:]      # DictChunkStore.put_chunk itself calls get_chunk
         arr = store.get_dask_array('x', chunks, np.int64)
+        arr2 = store2.get_dask_array('x', chunks, np.int64)
         res = dict(err=None)
         try:
-            ind = DaskLazyIndexer(arr, py_tuple(case['stages'][0], [True]))
+            k1 = py_tuple(case['stages'][0], [True])
+            ind = DaskLazyIndexer(arr, k1)
             _ = ind.shape, ind.dtype, ind.dataset, (len(ind) if ind.shape else 0)
             _ = str(ind), repr(ind)
             res['reads_before'] = len(calls)
-            out = ind[py_tuple(case['k2'], [True])]
+            k2 = py_tuple(case['k2'], [True])
+            out = ind[k2]
             res['out'] = np.asarray(out)
-            res['calls'] = list(calls)
+            res['calls'] = [c[1:] for c in calls if c[0] == 0]
+            # joint retrieval across two stores holding a same-named array with different content
+            del calls[:]
+            ind_a, ind_b = DaskLazyIndexer(arr, k1), DaskLazyIndexer(arr2, k1)
+            ja, jb = DaskLazyIndexer.get([ind_a, ind_b], k2)
+            res['joint_ok'] = bool(np.array_equal(ja, res['out']) and np.array_equal(jb, res['out'] + 100000))
+            res['joint_calls'] = (sorted(c[1:] for c in calls if c[0] == 0), sorted(c[1:] for c in calls if c[0] == 1))
         except Exception as e:   # noqa: BLE001
             res['err'] = type(e).__name__
     return res
@@ -319,6 +332,13 @@ def evaluate(ctx, cases):
                             v = f'empty request read a chunk more than once: {got}'
                     elif got != want:
                         v = f'chunks read {got} != chunks overlapping the requested region {want}'
+                    if v is None and impl.get('joint_ok') is False:
+                        v = ('joint get() over two stores holding a same-named array returned arrays that differ '
+                             'from fetching the indexers one by one')
+                    elif v is None and exp.size and impl.get('joint_calls') is not None and \
+                            (impl['joint_calls'][0] != want or impl['joint_calls'][1] != want):
+                        v = (f"joint get() read chunks {impl['joint_calls']} instead of the overlapping chunks "
+                             f'{want} from each store once')
                     ctx.traces_validated += 1
                 ctx.tag('readset')
             ctx.count(lines[2 * i], impl.get('out') is not None and impl['out'].size > 0,
